@@ -4,8 +4,9 @@
   gatherLinksAndBookmarks (document.go:126-184) walks one page's box tree in pre-order; a box whose
   `anchor` (= id) is non-empty and not yet in the page's `anchors` map defines it ("In case of duplicate
   IDs, only the first is an anchor").  resolveLinks (document.go:314-346) then walks the pages in order,
-  keeps a page's anchor only if no earlier page defined the name, and drops the internal links whose
-  target no page defines.
+  takes each page's anchors in sorted name order (since /repo 37ac465; it was the map's iteration
+  order), keeps one only if no earlier page defined the name, and drops the internal links whose target
+  no page defines.
 
   `α` is whatever identifies the defining element (the harness sends the element's index in the
   page's pre-order; the implementation sends a position).
@@ -24,13 +25,22 @@ def gatherAnchors {α : Type} (seen : List String) : List (String × α) → Lis
 /-- `Page.anchors` as built by newPage: the map starts empty on every page -/
 def pageAnchors {α : Type} (cands : List (String × α)) : List (String × α) := gatherAnchors [] cands
 
-/-- resolveLinks, first loop: per page, the entries of `page.anchors` whose name no earlier page
-    defined.  (`page.anchors` is a Go map: the order inside one page is the map's iteration order; the
-    model lists them in tree order and the correspondence compares per-page sets.) -/
+/-- sort.Strings over the names of `page.anchors` (names are unique inside one page map): insertion sort
+    of the entries by name; Go compares strings byte-wise, which on UTF-8 is the code-point order of `<` -/
+def insertByName {α : Type} (x : String × α) : List (String × α) → List (String × α)
+  | [] => [x]
+  | y :: ys => if x.1 < y.1 then x :: y :: ys else y :: insertByName x ys
+
+def sortByName {α : Type} : List (String × α) → List (String × α)
+  | [] => []
+  | x :: xs => insertByName x (sortByName xs)
+
+/-- resolveLinks, first loop: per page, in sorted name order, the entries of `page.anchors` whose name
+    no earlier page defined. -/
 def pagedAnchors {α : Type} (seen : List String) : List (List (String × α)) → List (List (String × α))
   | [] => []
   | p :: ps =>
-    let cur := p.filter (fun x => !seen.contains x.1)
+    let cur := (sortByName p).filter (fun x => !seen.contains x.1)
     cur :: pagedAnchors (cur.map (·.1) ++ seen) ps
 
 /-- the anchors handed to CreateAnchors, from the per-page candidates in tree order -/
